@@ -405,6 +405,11 @@ func (c *Ctx) c15LeafStream(n int) {
 		if !c.R.Chance(1, 10) {
 			cur.Set(lf.Path[len(lf.Path)-1], nearValue(c.R, lf, &idc))
 		}
+		if len(lf.Path) >= 2 && c.R.Chance(1, 6) {
+			// a non-object (or null) where the path expects an object: the failing / absent outcomes must not depend on spelling either
+			obj.Set(lf.Path[0], pick(c.R, []*AV{avInt(5), avStr("scalar"), {K: AVBool, B: true}, {K: AVNull}, {K: AVOther, Tag: 0}}))
+			c.count("leaf_respelling_non_object_in_path")
+		}
 		canon := c.style(true).Render(lf)
 		m := obj.GoMap()
 		base := evalFresh(canon, m)
